@@ -229,6 +229,35 @@ func gitExec(c *Ctx, op string) {
 		}
 		sort.Strings(lines)
 		res = strings.Join(lines, ",")
+		// ---- normalised ownership and mtimes are a function of the commit and the filter alone: after another unpack
+		// (of any commit) with explicit owners in this same process, the same unpack gives the same listing
+		{
+			alt := api.MustParseFilesetUnpackFilter("uid=4242,gid=4343,mtime=@77,sticky=follow,setid=follow,dev=follow")
+			safeCall(func() (api.WareID, error) {
+				return gittrans.Unpack(context.Background(), api.WareID{Type: "git", Hash: commits[0]}, filepath.Join(base, "dst-h0"), alt, rio.Placement_Direct, wh, rio.Monitor{})
+			})
+			_, herr, hpan := safeCall(func() (api.WareID, error) {
+				return gittrans.Unpack(context.Background(), id, filepath.Join(base, "dst-h1"), uf, rio.Placement_Direct, wh, rio.Monitor{})
+			})
+			if herr == nil && hpan == "" {
+				sn2, _ := Snapshot(filepath.Join(base, "dst-h1"))
+				var l2 []string
+				for _, e := range sn2 {
+					l2 = append(l2, fmt.Sprintf("%s|%c|%d|%d|%d|%d|%s", hx(e.Name), e.Kind, permsOf(e), e.Uid, e.Gid, e.Sec, hx(e.Link)))
+				}
+				sort.Strings(l2)
+				if strings.Join(l2, ",") != res {
+					d := ""
+					for i := range l2 {
+						if i >= len(lines) || l2[i] != lines[i] {
+							d = l2[i]
+							break
+						}
+					}
+					c.PropFail("git-owner-history", "the same unpack (commit, filter) gives another listing after an unpack with explicit owners ran earlier in this process; first difference: "+d, op)
+				}
+			}
+		}
 		// ---- C19 oracle, from git's own view of the tree (independent of the model)
 		want := map[string][3]string{}
 		for _, e := range es {
@@ -450,6 +479,13 @@ func gitEngine(c *Ctx) {
 	laters := []string{"none", "commit", "branch", "dirty", "detach"}
 	filts := []string{losslessUnpackStr, losslessUnpackStr, "uid=mine,gid=mine,mtime=follow,sticky=follow,setid=follow,dev=follow", "uid=5,gid=6,mtime=@99,sticky=follow,setid=follow,dev=follow"}
 	for k := 0; k < n; k++ {
-		gitExec(c, fmt.Sprintf("git %d %s %s", c.Rand()%100000, laters[k%len(laters)], filts[c.Intn(len(filts))]))
+		f := filts[c.Intn(len(filts))]
+		switch k { // history of the process: explicit owners first, then follow filters (nothing may carry over)
+		case 0:
+			f = filts[3]
+		case 1:
+			f = losslessUnpackStr
+		}
+		gitExec(c, fmt.Sprintf("git %d %s %s", c.Rand()%100000, laters[k%len(laters)], f))
 	}
 }
